@@ -62,7 +62,14 @@ def showCall (runners : Nat) (c : Call) : String :=
 def showCalls (runners : Nat) (cs : List Call) : String :=
   if cs.isEmpty then "-" else joinWith " | " (cs.map (showCall runners))
 
-def both (a b : String) : String := if a == b then a else s!"{a} #spec {b} #kf D16c"
+/-- where the model of the code as it is and the ideal splitter differ, the line names the recorded defect whose
+situation the trace is in: a restore that lost withheld shards (D16c, `tainted`) or dropped a reported position (D52,
+`dropped`); any other difference is tagged with an id that is not a recorded finding and is therefore reported -/
+def both (impl : Sp) (a b : String) : String :=
+  if a == b then a
+  else if impl.tainted then s!"{a} #spec {b} #kf D16c"
+  else if impl.dropped then s!"{a} #spec {b} #kf D52"
+  else s!"{a} #spec {b} #kf UNEXPLAINED"
 
 def parentsOf (s : Sp) (i : Nat) : List Nat := (s.stream[i]?.map (·.parents)).getD []
 
@@ -91,11 +98,15 @@ def showCkpt (s : Sp) : String :=
     let last := if c.tr.next == 0 then "-" else toString (c.tr.next - 1)
     s!"last={last} assigned={joinWith "," (ids.map toString)}"
 
+/-- does the code under test resume shards whose reported position the splitter had dropped?
+`false` = the code as it is (D52 open); set to `true` when `fixes/D52.diff` is applied. -/
+def codeReadd : Bool := false
+
 def kstep (k : KSt) (a : Act) (withLost : Bool := true) : KSt × String :=
-  let (i', ci) := Splits.step false k.impl a
-  let (s', cs) := Splits.step true k.spec a
+  let (i', ci) := Splits.step false codeReadd k.impl a
+  let (s', cs) := Splits.step true true k.spec a
   ({ k with impl := i', spec := s' },
-   both (showCalls i'.runners ci ++ " ; " ++ chk withLost i') (showCalls s'.runners cs ++ " ; " ++ chk withLost s'))
+   both i' (showCalls i'.runners ci ++ " ; " ++ chk withLost i') (showCalls s'.runners cs ++ " ; " ++ chk withLost s'))
 
 /-- maximal runs of a sorted list, `a-b` -/
 def runsOf : List Nat → Option (Nat × Nat) → List String
@@ -130,14 +141,14 @@ def stepKin (k : KSt) (ws : List String) : KSt × String :=
   | ["finish", ids] => kstep k (.finish (natList ids)) false
   | ["ckpt", states] =>
     let (k', _) := kstep k (.ckpt (pairList "=" states))
-    (k', both (showCkpt k'.impl) (showCkpt k'.spec))
+    (k', both k'.impl (showCkpt k'.impl) (showCkpt k'.spec))
   | ["split", i, a] =>
     let ok := (envSplit k.impl (natOr i) (natOr a)).isSome
     ((kstep k (.split (natOr i) (natOr a))).1, if ok then "ok" else "err")
   | ["merge", i, j] =>
     let ok := (envMerge k.impl (natOr i) (natOr j)).isSome
     ((kstep k (.merge (natOr i) (natOr j))).1, if ok then "ok" else "err")
-  | ["chk"] => (k, both (chk true k.impl) (chk true k.spec))
+  | ["chk"] => (k, both k.impl (chk true k.impl) (chk true k.spec))
   | _ => (k, "bad-op")
 
 def stepCut (r : RSt) : List String → RSt × String
